@@ -655,8 +655,13 @@ fn body(run: &Run, replay: Option<&Value>) {
     }
     match run.tier {
         Tier::Quick => {
-            maps_family(run, 4, &LENS_RED, &FILLS_RED, &permutations(4), "4tags_reduced_alphabet_all_orders");
-            run.bound("maps", json!("<=3 tags: full alphabets, all k! insertion orders; 4 tags: lengths_reduced x {00,FF}, all 24 orders"));
+            // 8 of the 24 orders: every tag appears in every position at least once
+            let orders4 = vec![
+                vec![0, 1, 2, 3], vec![3, 2, 1, 0], vec![1, 3, 0, 2], vec![2, 0, 3, 1],
+                vec![1, 0, 3, 2], vec![2, 3, 0, 1], vec![3, 0, 1, 2], vec![0, 2, 1, 3],
+            ];
+            maps_family(run, 4, &LENS_RED, &FILLS_RED, &orders4, "4tags_reduced_alphabet_8_orders");
+            run.bound("maps", json!("<=3 tags: full alphabets, all k! insertion orders; 4 tags: lengths_reduced x {00,FF}, 8 of the 24 orders (all 24 in thorough)"));
         }
         Tier::Thorough => {
             maps_family(run, 4, &LENS_RED, &FILLS_FULL, &permutations(4), "4tags_reduced_lengths_3fills_all_orders");
